@@ -113,6 +113,10 @@ type Scenario struct {
 	// StateKeys with all storage and base costs tripled), as admission before a rules change would; what is charged in
 	// the block must depend on the block's rules only
 	PreAdmit bool `json:"preAdmit,omitempty"`
+	// UsedProc: the Processor that executes the block is not fresh: it has just been given the same block on top of a
+	// DIFFERENT state (other height and timestamp, hence another root: a block offered against the wrong parent). What
+	// the block's verification answers on its real parent must not depend on that earlier call.
+	UsedProc bool `json:"usedProc,omitempty"`
 	ParentBlockTs uint64 `json:"parentBlockTs"` // timestamp in the parent block's HEADER (0 = same as the state timestamp ParentTs)
 	Genesis    []Alloc  `json:"genesis"`       // non-nil: the parent is the genesis commit of these allocations (C11 genesis scenarios)
 	Morpheus   bool     `json:"morpheus"` // reference VM: morpheusvm balance handler + Transfer actions
@@ -594,6 +598,42 @@ func (s *Scenario) execute(cfg Config) (Output, error) {
 	p := hchain.NewProcessor(trace.Noop, &logging.NoLog{}, &genesis.ImmutableRuleFactory{Rules: s.Rules.toRules()}, w,
 		chaintest.NewDummyTestAuthEngines(), metadata.NewDefaultManager(), s.handler(), vw, metrics, conf)
 
+	if s.UsedProc && s.Genesis == nil {
+		dm := s.parentMap()
+		mm := metadata.NewDefaultManager()
+		dh := s.BlockH - 1 // a parent on which the block's height would be right
+		if dh == s.ParentH {
+			dh = s.ParentH + 3
+		}
+		dts := uint64(0) // ... and, half of the time, one on which every timestamp gap is satisfied
+		if s.ParentTs%2 == 1 {
+			dts = s.ParentTs + 5000
+		}
+		dm[string(hchain.HeightKey(mm.HeightPrefix()))] = binary.BigEndian.AppendUint64(nil, dh)
+		dm[string(hchain.TimestampKey(mm.TimestampPrefix()))] = binary.BigEndian.AppendUint64(nil, dts)
+		ddb, derr := newDB(dm)
+		if derr != nil {
+			return out, derr
+		}
+		dtxs, derr := s.buildTxs()
+		if derr != nil {
+			return out, derr
+		}
+		if dblk, derr := hchain.NewStatelessBlock(ids.ID{1}, ts, s.BlockH, dtxs, root, &block.Context{}); derr == nil {
+			done := make(chan struct{})
+			go func() {
+				defer close(done)
+				defer func() { _ = recover() }()
+				_, _ = p.Execute(ctx, ddb, hchain.NewExecutionBlock(dblk), true)
+			}()
+			select {
+			case <-done:
+			case <-time.After(60 * time.Second):
+				out.ErrCls, out.ErrText = 99, "HANG: Processor.Execute on the other state did not return within 60s"
+				return out, nil
+			}
+		}
+	}
 	rv := &recView{View: db, failKey: s.FailKey}
 	type res struct {
 		ob  *hchain.OutputBlock
@@ -963,6 +1003,9 @@ func genScenario(r *rand.Rand, prop string) *Scenario {
 	}
 	if r.Intn(5) == 0 {
 		s.PreAdmit = true
+	}
+	if r.Intn(3) == 0 {
+		s.UsedProc = true
 	}
 	if prop == "C01" && r.Intn(6) == 0 {
 		// reader hand-off under a controlled schedule: writer N, slow reader R1 (enqueued while N is unexecuted), reader
